@@ -20,6 +20,7 @@ import (
 	"math/big"
 	"reflect"
 	"strconv"
+	"strings"
 	"unicode/utf8"
 
 	"github.com/shopspring/decimal"
@@ -315,6 +316,8 @@ func (in *interp) stmt(s ast.Stmt, sc *scope) *returned {
 					v = false
 				} else if vs.Type != nil && src(vs.Type) == "bytes.Buffer" {
 					v = &bytes.Buffer{}
+				} else if vs.Type != nil && src(vs.Type) == "strings.Builder" {
+					v = &strings.Builder{}
 				}
 				sc.vars[n.Name] = v
 			}
@@ -697,7 +700,7 @@ func (in *interp) callExpr(x *ast.CallExpr, sc *scope) any {
 				in.fail(x, "method %s on nil", sel.Sel.Name)
 			}
 			switch recv.(type) {
-			case decimal.Decimal, *big.Int, *xNumber, *xError, *xText, *bytes.Buffer:
+			case decimal.Decimal, *big.Int, *xNumber, *xError, *xText, *bytes.Buffer, *strings.Builder:
 			default:
 				in.fail(x, "method %s on a %T", sel.Sel.Name, recv)
 			}
